@@ -265,6 +265,15 @@ pub fn model_writer_requests(ctx: &Ctx) -> Vec<(String, String)> {
             out.push((format!("analyzefull {} {}", vs.join(" "), hex(&d[..size])), "*".to_string()));
         }
     }
+    // whole containers written by the frozen model of the library (scanner, chunk framing, IDAT
+    // descriptors, stream corrections): the CURRENT recreated_zlib_chunks must reproduce the file
+    let nfiles = ctx.n(120, 2500);
+    for i in 0..nfiles {
+        let fc = crate::container::file_case(ctx.seed ^ 0xC04F, i, 2500);
+        if fc.bytes.len() <= 3000 {
+            out.push((format!("libraryfull {}", hex(&fc.bytes)), "*".to_string()));
+        }
+    }
     out
 }
 
@@ -308,6 +317,30 @@ pub fn verify_model_written(dir: &str) -> bool {
         }
     }
     println!("model-as-writer: {n} requests, {accepted} written by the model and decoded by the current build");
+    let (mut nf, mut nfw) = (0, 0);
+    for (rq, an) in reqs.lines().zip(answers.lines()) {
+        if !rq.starts_with("libraryfull ") {
+            continue;
+        }
+        nf += 1;
+        let f = unhex(rq.rsplit(' ').next().unwrap());
+        let t: Vec<&str> = an.split(' ').collect();
+        if t.len() != 2 || t[0] != "ok" {
+            continue;
+        }
+        nfw += 1;
+        let c = unhex(t[1]);
+        let verdict = match crate::container::recreate_plain(&c) {
+            Run::Panic(p) => Some(format!("model-written-container-panic {}", panic_signature(&p))),
+            Run::Done(Err(e)) => Some(format!("model-written-container-err {e}")),
+            Run::Done(Ok(g)) => if g == f { None } else { Some("model-written-container-differs".to_string()) },
+        };
+        if let Some(v) = verdict {
+            ok = false;
+            println!("FAIL {v} | current recreated_zlib_chunks does not reproduce the file from the container written by the reference model | {rq}");
+        }
+    }
+    println!("model-as-writer: {nf} files, {nfw} containers written by the model and decoded by the current build");
     ok
 }
 
